@@ -6,7 +6,8 @@
      E i set k | E i del k | E i ins k
      E i lock ks rv ce loie f early locked absent lwc res expired   (ks/locked/absent: comma lists of hex ints, "-" = empty)
      E i commit mode(2pc|async|1pc) prewritten sync res(ok|pfail|cfail) unnecessary
-     D          drain all pending tasks
+     D          drain all pending tasks      D lost   ... except for the keys whose release never reached the store
+     E i rollback lost     Rollback whose synchronous release of the keys lost did not complete
    output: R id i flags cnt agg cur prev rk valid ntasks store x(X = the expiry input mattered) primary keepalive(U|C|bound key)      and after D:  F id store *)
 let keys_of_str s = if s = "-" || s = "" then [] else List.map n_of_hex (String.split_on_char ',' s)
 let str_of_keys l = if l = [] then "-" else String.concat "," (List.sort compare (List.map hex_of_n l))
@@ -42,6 +43,8 @@ let () =
                   co_unnecessary = (match rest with u :: _ -> keys_of_str u | [] -> []);
                   co_res = (match res with "ok" -> COk | "pfail" -> CPrewriteFail | _ -> CCommitFail) } in
         cur := step !cur (ECommit o); out !id i !cur "-"
+      | "E" :: i :: "rollback" :: lost :: _ ->
+        cur := step !cur (ERollbackLost (keys_of_str lost)); out !id i !cur "-"
       | "E" :: i :: op :: rest ->
         let e = match op, rest with
           | "set", k :: _ -> ESet (n_of_hex k) | "del", k :: _ -> EDel (n_of_hex k) | "ins", k :: _ -> EInsert (n_of_hex k)
@@ -52,6 +55,13 @@ let () =
       | ["D"] ->
         cur := drain (nat_of_int (List.length !cur.tasks + 1)) !cur;
         Printf.printf "F\t%s\t%s\t%d\n" !id (str_of_keys (List.map fst !cur.store)) (List.length !cur.tasks)
+      | ["D"; lost] ->
+        (* release requests naming the keys [lost] never reached the store: every pending task completes for its other keys only *)
+        let lost = keys_of_str lost in
+        let tkeys = function TPessRb (l, _) -> l | TCleanup l -> l | TCommitSec l -> l in
+        List.iteri (fun n t ->
+          cur := run_some (nat_of_int n) (List.filter (fun k -> not (List.mem k lost)) (tkeys t)) !cur) !cur.tasks;
+        Printf.printf "F\t%s\t%s\t%d\n" !id (str_of_keys (List.map fst !cur.store)) 0
       | [] | [""] -> ()
       | _ -> print_endline ("BAD\t" ^ line)
     with e -> print_endline ("EXC\t" ^ !id ^ "\t" ^ Printexc.to_string e ^ "\t" ^ line))
